@@ -422,3 +422,13 @@ B("C17", TF, "        return z + jnp.log(-jnp.expm1(-z))", "        return z + j
 # F21 (repaired): the checkpoint pad of an input must have that input's number of columns
 for _p, _r in (("C06", "R-C06-scan"), ("C07", "R-C07-padding"), ("C08", "R-C08-time"), ("C05", "R-C05-padding")):
     B(_p, IG, "            dummy_external = jnp.zeros((size_difference, externals[key].shape[1]))", "            dummy_external = jnp.zeros((size_difference, externals[list(externals.keys())[0]].shape[1]))", _r)
+
+# F22 (repaired): values stored on the module during integrate must be concrete
+B("C18", BASE, "        with ensure_compile_time_eval():\n            self.base.jaxnodes = {}", "        if True:\n            self.base.jaxnodes = {}", "R-C18-tracer")
+P("C18", BASE, "        with ensure_compile_time_eval():\n            self.base.jaxnodes = {}", "        with jax.ensure_compile_time_eval():\n            self.base.jaxnodes = {}")
+# R-C18-memo
+B("C18", BASE, "    def _compute_axial_conductances(self, params: Dict[str, jnp.ndarray]):", "    @partial(jit, static_argnums=(0,))\n    def _compute_axial_conductances(self, params: Dict[str, jnp.ndarray]):", "R-C18-memo")
+B("C18", BASE, "    def _edge_inds_within_type(self) -> np.ndarray:", "    @lru_cache(maxsize=None)\n    def _edge_inds_within_type(self) -> np.ndarray:", "R-C18-memo")
+# must-store: invariant-restoring stores are unconditional
+for _p in ("C13", "C19", "C10", "C11"):
+    B(_p, BASE, '        self.nodes["controlled_by_param"] = 0\n\n    def _compute_coords_of_comp_centers', '        if "controlled_by_param" not in self.nodes.columns:\n            self.nodes["controlled_by_param"] = 0\n\n    def _compute_coords_of_comp_centers', "R-%s-muststore" % _p)
